@@ -663,11 +663,12 @@ def _have_conflicting_state(specs: Iterable[ModelSpec]) -> bool:
             return a.keys() == b.keys() and all(agree(a[k], b[k]) for k in a)
         if isinstance(a, (list, tuple)) and isinstance(b, (list, tuple)):
             return len(a) == len(b) and all(agree(x, y) for x, y in zip(a, b))
-        if isinstance(a, ContrastsState) and isinstance(b, ContrastsState):
-            return type(a.contrasts) is type(b.contrasts) and agree(
-                (vars(a.contrasts), list(a.levels)), (vars(b.contrasts), list(b.levels))
-            )
         try:
+            if isinstance(a, ContrastsState) and isinstance(b, ContrastsState):
+                return type(a.contrasts) is type(b.contrasts) and agree(
+                    (vars(a.contrasts), list(a.levels)),
+                    (vars(b.contrasts), list(b.levels)),
+                )
             if isinstance(a, numpy.ndarray) or isinstance(b, numpy.ndarray):
                 return bool(numpy.array_equal(a, b, equal_nan=True))
             return bool(a == b) or bool(a != a and b != b)
@@ -776,6 +777,15 @@ class ModelSpecs(Structured[ModelSpec]):
         # specs fitted separately must each replay their own state.
         if jointly_generate and _have_conflicting_state(self._flatten()):
             jointly_generate = False
+            # A first pass collects the rows that any of the specs drops, so
+            # that the separately generated matrices stay row-aligned (as they
+            # are under joint generation).
+            drop_rows = set() if drop_rows is None else drop_rows
+            self._map(
+                lambda model_spec: model_spec.get_model_matrix(
+                    data, context=context, drop_rows=drop_rows
+                )
+            )
 
         if jointly_generate:
             if materializer is None:
